@@ -8,7 +8,13 @@ open IpcHub.Drv IpcHub.Tables IpcHub.TableSpec IpcHub.UserTable IpcHub.Route
     `users <op> …` with   s,<name>,<password>,<admin>,<push>,<pull>,<update_password>
     `routes <op> …` with  s,<pattern>,<url>,<keepalive>,<urlok>
     both:  d,<key>  g,<key>  a  f (Flush)  r (restart: Reset from the file)
+           e | E   (Flush while the provider is down / the file system refuses)
+           k,<hook>,<part>   (Flush is called and the process dies at that crash point of
+                              EncodeJSONFile, `part` ∈ - 0 1 h m a = bytes of the write in
+                              progress: none, 0, 1, half, all but one, all; then a restart)
            x,missing | x,corrupt | x,emptylist   (the file is replaced by hand)
+    after the ops, `@ o|n|x …`: what the implementation's table file was after each `k`
+    (old / new / neither) — the specification allows old and new and continues from the one seen
     answer: `model=<obs>|… spec=<obs>|…`; the spec answers "-" where the statement says nothing
     `crash <hook> <partial|-> <old-hex|none> <new-hex>` → what a restart reads after the process
     died at that crash point of EncodeJSONFile: `old|new|missing|other:<hex>` -/
@@ -20,6 +26,8 @@ inductive TOp (V : Type) where
   | all
   | flush
   | restart
+  | failFlush
+  | crash (hook part : String)
   | setDisk (kind : String) (tbl : Option (List V))
 
 structure Kind (V : Type) where
@@ -65,6 +73,9 @@ def parseCommon {V : Type} (entry : List String → Option V) (p : List String) 
   | ["a"] => some .all
   | ["f"] => some .flush
   | ["r"] => some .restart
+  | ["e"] => some .failFlush
+  | ["E"] => some .failFlush
+  | ["k", hook, part] => some (.crash hook part)
   | ["x", kind] => some (.setDisk kind (parseTable entry kind))
   | _ => none
 
@@ -111,6 +122,26 @@ def parseRouteOp (tok : String) : Option (TOp Route × Option (List Char)) :=
     | _, _ => none
   | p => (parseCommon routeEntry p).map (·, none)
 
+/-- where the regenerated program of EncodeJSONFile leaves the table file when the process dies at
+    `hook` (with `part` of the write in progress out), on stand-in contents: `old`, `new`,
+    `missing` or `other` -/
+def crashDummy (hook part : String) (hadOld : Bool) : String :=
+  match Fs.genProg with
+  | none => "bad-program"
+  | some prog =>
+    match Fs.hookIndex prog hook with
+    | none => "no-such-hook"
+    | some k =>
+      let newb : Fs.Bytes := [1, 1]
+      let oldb : Option Fs.Bytes := if hadOld then some [0] else none
+      let pn : Option Nat := if part = "-" then none else if part = "0" then some 0 else if part = "a" then some 2 else some 1
+      let (k, p) := match pn with
+        | some n => (k + ((prog.drop k).takeWhile (fun o => match o with | .write _ => false | _ => true)).length, some n)
+        | none => (k, none)
+      match Fs.processOutcome (Fs.crashState newb (Fs.Fs.init oldb) prog k p) with
+      | none => if hadOld then "missing" else "old"
+      | some c => if some c = oldb then "old" else if c = newb then "new" else "other"
+
 def runModel {V : Type} (k : Kind V) : List (TOp V) → Server V → List String → List String
   | [], _, acc => acc.reverse
   | op :: rest, sv, acc =>
@@ -129,25 +160,49 @@ def runModel {V : Type} (k : Kind V) : List (TOp V) → Server V → List String
     | .restart =>
       let (sv', ok) := Server.boot k.ops k.dflt sv.disk
       runModel k rest sv' ((if ok then "ok" else "panic") :: acc)
+    | .failFlush =>
+      -- provider.Flush returns an error: Flush returns it before clearing the change lists
+      let o := match flush k.guarded sv.st with
+        | (_, none) => "skip"
+        | (_, some _) => "err"
+      runModel k rest (Server.cstep k.ops k.guarded k.dflt sv .failFlush) (o :: acc)
+    | .crash hook part =>
+      let (out, disk) : String × Disk V := match flush k.guarded sv.st with
+        | (_, none) => ("skip", sv.disk)
+        | (_, some full) =>
+          let hadOld := match sv.disk with | .missing => false | _ => true
+          let out := crashDummy hook part hadOld
+          (out, if out = "old" then sv.disk else if out = "new" || out = "no-such-hook" then .table full
+                else if out = "missing" then .missing else .corrupt)
+      let (sv', ok) := Server.boot k.ops k.dflt disk
+      runModel k rest sv' (s!"K:{out};{if ok then "ok" else "panic"}" :: acc)
     | .setDisk kind tbl =>
       let d : Disk V := match tbl with
         | some t => .table t
         | none => if kind = "missing" then .missing else if kind = "emptylist" then .table [] else .corrupt
       runModel k rest { sv with disk := d } ("ok" :: acc)
 
-def runSpec {V : Type} (k : Kind V) : List (TOp V) → Abs V → Bool → List String → List String
-  | [], _, _, acc => acc.reverse
-  | op :: rest, a, live, acc =>
-    if !live then runSpec k rest a false ("-" :: acc) else
+def runSpec {V : Type} (k : Kind V) : List (TOp V) → Abs V → Bool → List String → List String → List String
+  | [], _, _, _, acc => acc.reverse
+  | op :: rest, a, live, ann, acc =>
+    if !live then runSpec k rest a false ann ("-" :: acc) else
     match op with
+    | .failFlush => runSpec k rest (Abs.cstep k.spec k.dflt a .failFlush) true ann ("-" :: acc)
+    | .crash _ _ =>
+      -- the statement: the file is the complete previous or the complete new table, and the restart
+      -- comes up with it; which of the two is an observation
+      match ann with
+      | "o" :: ann' => runSpec k rest (Abs.cstep k.spec k.dflt a (.crashFlush false)) true ann' ("K:old-or-new;ok" :: acc)
+      | "n" :: ann' => runSpec k rest (Abs.cstep k.spec k.dflt a (.crashFlush true)) true ann' ("K:old-or-new;ok" :: acc)
+      | _ => runSpec k rest a false ann.tail ("K:old-or-new;ok" :: acc)
     | .save v flag =>
       let ok := (k.spec.create v).isSome
-      runSpec k rest (Abs.step k.spec k.dflt a (.save v flag)) true ((if ok then "ok" else "err") :: acc)
-    | .del n => runSpec k rest (Abs.step k.spec k.dflt a (.del n)) true ("ok" :: acc)
-    | .get n => runSpec k rest a true (fmtOpt k.fmt (specGet k.spec a.cur n) :: acc)
-    | .all => runSpec k rest a true (fmtList k.fmt a.cur :: acc)
-    | .flush => runSpec k rest (Abs.step k.spec k.dflt a .flush) true ("-" :: acc)
-    | .restart => runSpec k rest (Abs.step k.spec k.dflt a .restart) true ("ok" :: acc)
+      runSpec k rest (Abs.step k.spec k.dflt a (.save v flag)) true ann ((if ok then "ok" else "err") :: acc)
+    | .del n => runSpec k rest (Abs.step k.spec k.dflt a (.del n)) true ann ("ok" :: acc)
+    | .get n => runSpec k rest a true ann (fmtOpt k.fmt (specGet k.spec a.cur n) :: acc)
+    | .all => runSpec k rest a true ann (fmtList k.fmt a.cur :: acc)
+    | .flush => runSpec k rest (Abs.step k.spec k.dflt a .flush) true ann ("-" :: acc)
+    | .restart => runSpec k rest (Abs.step k.spec k.dflt a .restart) true ann ("ok" :: acc)
     | .setDisk _ tbl =>
       -- a hand-written file whose entries have distinct canonical keys: a restart holds its
       -- entries in stored form ("names and patterns are canonicalised"); any other file: no claim
@@ -155,13 +210,13 @@ def runSpec {V : Type} (k : Kind V) : List (TOp V) → Abs V → Bool → List S
       | some t =>
         let stored := t.filterMap k.spec.create
         let keys := stored.map k.spec.key
-        if keys.eraseDups.length = keys.length then runSpec k rest { a with disk := some stored } true ("ok" :: acc)
-        else runSpec k rest a false ("-" :: acc)
-      | none => runSpec k rest a false ("-" :: acc)
+        if keys.eraseDups.length = keys.length then runSpec k rest { a with disk := some stored } true ann ("ok" :: acc)
+        else runSpec k rest a false ann ("-" :: acc)
+      | none => runSpec k rest a false ann ("-" :: acc)
 
-def answer {V : Type} (k : Kind V) (ops : List (TOp V)) : String :=
+def answer {V : Type} (k : Kind V) (ops : List (TOp V)) (ann : List String) : String :=
   let m := runModel k ops (Server.boot k.ops k.dflt .missing).1 []
-  let sp := runSpec k ops (Abs.fresh k.spec k.dflt) true []
+  let sp := runSpec k ops (Abs.fresh k.spec k.dflt) true ann []
   s!"model={"|".intercalate m} spec={"|".intercalate sp}"
 
 def userKind : Kind User :=
@@ -191,13 +246,15 @@ def crashAnswer (hook part old new : String) : String :=
   | _, _ => "bad-op"
 
 def handle : List String → String
-  | "users" :: toks =>
+  | "users" :: all =>
+    let toks := all.takeWhile (· ≠ "@")
     match mapM' parseUserOp toks with
-    | some ops => answer userKind ops
+    | some ops => answer userKind ops ((all.dropWhile (· ≠ "@")).drop 1)
     | none => "bad-op"
-  | "routes" :: toks =>
+  | "routes" :: all =>
+    let toks := all.takeWhile (· ≠ "@")
     match mapM' parseRouteOp toks with
-    | some ops => answer (routeKind (ops.filterMap (·.2) ++ (toks.map badUrlsOf).flatten)) (ops.map (·.1))
+    | some ops => answer (routeKind (ops.filterMap (·.2) ++ (toks.map badUrlsOf).flatten)) (ops.map (·.1)) ((all.dropWhile (· ≠ "@")).drop 1)
     | none => "bad-op"
   | ["crash", hook, part, old, new] => crashAnswer hook part old new
   | _ => "bad-op"
